@@ -29,6 +29,13 @@ fn table(rep: &mut Report) {
     if got_names != want_names {
         rep.violation("C16/iteration", kase("iter", json!({})), format!("{:?}", got_names), format!("{:?}", want_names));
     }
+    // consumed from both ends in every front/back schedule of the form F^i B^j F^*, its mirror and the alternations
+    rep.inc("transitions");
+    match guard(|| super::common::both_ends_schedules(|| SIPrefix::iter().copied(), &got)) {
+        Ok(Ok(n)) => rep.count("iteration_schedules", n),
+        Ok(Err(e)) => rep.violation("C16/iteration/both-ends", kase("iter: next / next_back", json!({})), e, "every prefix exactly once".into()),
+        Err(p) => rep.violation("C16/iteration/both-ends", kase("iter: next / next_back", json!({})), format!("panic: {p}"), "every prefix exactly once".into()),
+    }
     for w in got.windows(2) {
         if w[0].exp() >= w[1].exp() {
             rep.violation("C16/iteration-order", kase("iter", json!({})), format!("{:?} before {:?}", w[0], w[1]), "strictly increasing exponents".into());
